@@ -5,10 +5,11 @@ From Coq Require Import List ZArith Bool.
 Import ListNotations.
 From Zn.model Require Import Lexer Ast Parser.
 From Zn.proofs Require Import FrontCompleteProofs.
-From Zn.proofs Require ExprPrecProofs ExprPrecSpacesProofs ChainPrecProofs StmtNestProofs.
+From Zn.proofs Require ExprPrecProofs ExprPrecSpacesProofs ChainPrecProofs StmtNestProofs LayoutInvProofs.
 Module EP := ExprPrecProofs.
 Module CP := ChainPrecProofs.
 Module SN := StmtNestProofs.
+Module LI := LayoutInvProofs.
 Module EPS := ExprPrecSpacesProofs.
 Open Scope Z_scope.
 
@@ -120,6 +121,31 @@ Example C03_example_nesting :         (* 每当 A / 如果 B / 每当 C / D, the
   compile (default_fuel SN.ex_src1) SN.ex_src1
   = OTree SN.ex_tree1 [mkLine 0 0; mkLine 1 7; mkLine 2 18; mkLine 3 33; mkLine 1 47; mkLine 0 53] GenFrontTokens.g_IndentSpace.
 Proof. exact SN.ex1_by_theorem. Qed.
+
+(* ---- text that only rearranges layout never changes the tree ----
+   A layout [LI.layout] chooses the indentation unit (four spaces or one TAB per level, one unit throughout the text — mixing them is
+   rejected by the lexer), the line end before every line (LF, CR, CRLF or LFCR, a different one at each line if wished), blank lines
+   between statements (empty, or holding whole indentation units) and a trail of line ends / blank lines after the last statement.
+   For every program of the statement fragment and ANY two layouts the trees are equal, and equal to the prescribed tree.  For layouts
+   that do not write an ambiguous break (LF, empty line, CR = the single break LFCR) the line table — every physical line, blank and
+   trailing ones included — and the indentation type are given too. *)
+Theorem C03_layout_invariance : forall L1 L2 p, SN.prog_ok p = true ->
+  LI.tree_of (compile (default_fuel (LI.print_with L1 p)) (LI.print_with L1 p)) = Some (SN.prescribed p) /\
+  LI.tree_of (compile (default_fuel (LI.print_with L1 p)) (LI.print_with L1 p))
+  = LI.tree_of (compile (default_fuel (LI.print_with L2 p)) (LI.print_with L2 p)).
+Proof. exact LI.layout_invariance_all. Qed.
+Print Assumptions C03_layout_invariance.
+
+Theorem C03_layout_tree_lines_indent : forall L p, SN.prog_ok p = true -> LI.layout_ok L = true ->
+  compile (default_fuel (LI.print_with L p)) (LI.print_with L p)
+  = OTree (SN.prescribed p) (LI.line_table_with L p) (LI.indent_type_with L p).
+Proof. exact LI.compile_print_with_default. Qed.
+Print Assumptions C03_layout_tree_lines_indent.
+
+(* the canonical printing of C03_statements_every_program is one of the layouts *)
+Theorem C03_layout_canonical : forall p, LI.print_with (LI.mkLayout false [] []) p = SN.print p.
+Proof. exact LI.print_with_canon. Qed.
+Print Assumptions C03_layout_canonical.
 
 (* more fuel never changes an answer: for every production, state and pair of fuels *)
 Theorem C03_fuel_monotone : forall f g src, (f <= g)%nat -> compile f src = OFuel \/ compile f src = compile g src.
